@@ -8,6 +8,7 @@ package proxy
 // outcomes are asserted; time-outs are reported as harness errors (exit 2), never as violations.
 
 import (
+	"strings"
 	"context"
 	"fmt"
 	"io"
@@ -407,7 +408,9 @@ func vfNewMuxWorldTLS(srvTLS, peerTLS encryption.TLSConfig, expectUp bool) (*vfW
 		Name: "vfmuxtlspeer",
 		Local: config.ClusterDefinition{ConnectionType: config.ConnTypeTCP,
 			TcpClient: config.TCPTLSInfo{ConnectionString: w.remote.addr}, TcpServer: config.TCPTLSInfo{ConnectionString: peerOutbound}},
-		Remote: config.ClusterDefinition{ConnectionType: config.ConnTypeMuxClient, MuxCount: 1, MuxAddressInfo: config.TCPTLSInfo{ConnectionString: muxAddr, TLSConfig: peerTLS}},
+		// (the establishing side is given a host name, not an IP address, as deployments do: the name it verifies the
+		// server against is the configured caServerName, not the name it happens to dial)
+		Remote: config.ClusterDefinition{ConnectionType: config.ConnTypeMuxClient, MuxCount: 1, MuxAddressInfo: config.TCPTLSInfo{ConnectionString: strings.Replace(muxAddr, "127.0.0.1", "localhost", 1), TLSConfig: peerTLS}},
 	}
 	ctx, cancel := context.WithCancel(context.Background())
 	w.cancel = cancel
